@@ -9,11 +9,11 @@ package compress
 //verif:summarize-conc github.com/siglens/siglens/pkg/segment/writer/metrics/compress.trailingZeros
 //verif:entry VerifC08ValueStepNewWindow conf=6
 //verif:entry VerifC08ValueStepReuseWindow conf=6 conc=no
-//verif:entry VerifC08ValueStep tier=thorough conf=4
+//verif:entry VerifC08ValueStep tier=deep conf=4
 //verif:entry VerifC08TimestampStep conf=6
-//verif:entry VerifC08Step tier=thorough conf=6
+//verif:entry VerifC08Step tier=deep conf=6
 //verif:entry VerifC08Stream2 conf=6
-//verif:entry VerifC08Stream3 tier=thorough conf=4
+//verif:entry VerifC08Stream3 tier=deep conf=4
 //verif:entry VerifC08BitIO conf=6
 //verif:bound H1v/H1t (quick) the value half and the timestamp half of one step separately, each from an arbitrary valid codec state, all 2^64 values / all admissible timestamps; the combined step H1 runs in the thorough tier
 //verif:bound quick tier of the reuse-window value step: window leading-zero count in {0,12,31,32,63}, every trailing-zero count; thorough: all 2080 windows
